@@ -531,13 +531,19 @@ func init() {
 		var mutSeqs [][]string
 		if j.Depth <= 1 {
 			mutSeqs = append(mutSeqs, []string{j.First})
-		} else {
+		} else if j.Depth == 2 {
 			for _, m2 := range c11Muts {
 				mutSeqs = append(mutSeqs, []string{j.First, m2.Name})
 			}
+		} else {
+			for _, m2 := range c11Muts {
+				for _, m3 := range c11Muts {
+					mutSeqs = append(mutSeqs, []string{j.First, m2.Name, m3.Name})
+				}
+			}
 		}
 		modes, errs := c11Modes, c11Errors
-		if j.PAR {
+		if j.PAR || j.Depth >= 3 {
 			modes, errs = []string{"code", "code-form_post"}, []string{"none", "scope"}
 		}
 		for _, ms := range mutSeqs {
@@ -565,9 +571,9 @@ func init() {
 		return res.Viol, nil
 	}
 	registerCheck("C11", "exploration", 120*time.Second, 25*time.Minute, func(r *Run) {
-		depth := 1
+		depth := 2
 		if !r.Quick() {
-			depth = 2
+			depth = 3
 		}
 		var jobs []any
 		var sets []string
@@ -579,8 +585,9 @@ func init() {
 			for _, m := range c11Muts {
 				jobs = append(jobs, c11Job{Set: s, First: m.Name, Depth: 1})
 				jobs = append(jobs, c11Job{Set: s, First: m.Name, Depth: 1, PAR: true})
-				if depth == 2 {
-					jobs = append(jobs, c11Job{Set: s, First: m.Name, Depth: 2})
+				jobs = append(jobs, c11Job{Set: s, First: m.Name, Depth: 2})
+				if depth == 3 {
+					jobs = append(jobs, c11Job{Set: s, First: m.Name, Depth: 3})
 				}
 			}
 		}
@@ -588,7 +595,7 @@ func init() {
 		for _, m := range c11Muts {
 			mn = append(mn, m.Name)
 		}
-		r.Bounds = map[string]any{"registered_sets": c11Sets, "mutations": mn, "mutation_depth": depth, "modes": c11Modes, "error_timings": c11Errors, "par": "depth-1 mutations x {code, code+form_post} x {none, scope error}"}
+		r.Bounds = map[string]any{"registered_sets": c11Sets, "mutations": mn, "mutation_depth": depth, "modes": c11Modes, "error_timings": c11Errors, "par": "depth-1 mutations x {code, code+form_post} x {none, scope error}", "depth_3": "thorough only, x {code, code+form_post} x {none, scope error}"}
 		r.Rule = "every composition of <= depth mutations applied to the first registered URI of every registered set, under every response type/mode and every error timing, is sent to the real authorization endpoint (and through the PAR endpoint); the bytes written (Location header / form action) are parsed with an independent RFC 3986 splitter and must qualify against the registered set; distinct = distinct (set, requested string, mode, error) that produced a redirect"
 		r.Assumptions = []string{"a query string that is a permutation/re-encoding of the registered one counts as identical (the writer re-encodes the query); scheme case is ignored", "targets the reference splitter cannot parse never qualify"}
 		res := r.Pool.Do("c11", jobs, r.Deadline)
